@@ -1,4 +1,5 @@
 mod util;
+mod p23;
 mod p29;
 
 use util::Ctx;
@@ -27,6 +28,7 @@ fn main() {
     std::panic::set_hook(Box::new(|_| {}));
     let mut ctx = Ctx::new(&prop, &tier, seed, out);
     match prop.as_str() {
+        "C23" => p23::run(&mut ctx),
         "C29" => p29::run(&mut ctx),
         _ => { eprintln!("unknown property {prop}"); std::process::exit(2); }
     }
